@@ -67,20 +67,48 @@ func (k *kase) op(line string) string {
 		}
 	}
 	out := k.e.StepWD(ws)
+	dump := ""
+	if IsStall(out) {
+		// A watchdog fired. Slowness alone must not be a finding: run the case's ops once more in a
+		// fresh world (fresh handler, stores, queue) with the full watchdogs. Only a stall that
+		// happens again is reported; otherwise the case goes on in the fresh world.
+		first, firstDump := out, k.e.LastDump
+		k.e.Close()
+		fresh := newExecState()
+		fresh.rerun = true
+		out2 := ""
+		for _, o := range append(k.r.CaseOps(), line) {
+			out2 = fresh.StepWD(strings.Fields(o))
+			if IsStall(out2) {
+				break
+			}
+		}
+		if !IsStall(out2) {
+			k.r.Hit("stall-not-reproduced")
+			k.r.Note(fmt.Sprintf("watchdog fired once and did not reproduce in a fresh world: case %q op %q -> %q, re-run -> %q; goroutines at the first stall: %s",
+				strings.Join(k.r.CaseOps(), "; "), line, first, out2, firstDump))
+			fresh.rerun = false
+			k.e, out = fresh, out2
+		} else {
+			ConfirmStall(out2)
+			k.e, out = fresh, out2
+			dump = " | goroutines at the stall (re-run in a fresh world): " + fresh.LastDump + " | goroutines at the first stall: " + firstDump
+		}
+	}
 	k.r.Op(line, out)
-	if strings.HasPrefix(out, "broken") || out == "panic" || out == "hang" || strings.HasPrefix(out, "timeout") || strings.HasPrefix(out, "stalled") {
+	if strings.HasPrefix(out, "broken") || out == "panic" || IsStall(out) {
 		k.dead = true
 		if strings.HasPrefix(out, "stalled") {
-			// the watchdog of `drain` / `drainfirst`: the real runSync never returned
-			k.r.Fail("runsync-stalled-with-pending-blobs", "op "+line+" -> "+out+": runSync did not return; the copy loop is stuck with blobs pending", "runSync returns (copied=N)", out, k.r.CaseOps())
+			// the watchdog of `drain` / `drainfirst`: the real runSync never returned (twice)
+			k.r.Fail("runsync-stalled-with-pending-blobs", "op "+line+" -> "+out+": runSync did not return; the copy loop is stuck with blobs pending"+dump, "runSync returns (copied=N)", out, k.r.CaseOps())
 			return out
 		}
 		if strings.HasPrefix(out, "timeout") {
-			// the watchdog of `settle`: the real syncLoop left a pending blob uncopied for more than two poll intervals
-			k.r.Fail("syncloop-stalled-with-pending-blob", "op "+line+" -> "+out, "needCopy drained (eventual delivery)", out, k.r.CaseOps())
+			// the watchdog of `settle`: the real syncLoop left a pending blob uncopied for several poll intervals (twice)
+			k.r.Fail("syncloop-stalled-with-pending-blob", "op "+line+" -> "+out+dump, "needCopy drained (eventual delivery)", out, k.r.CaseOps())
 			return out
 		}
-		k.r.Fail("harness-"+strings.SplitN(out, ":", 2)[0], "op "+line+" -> "+out, "an answer", out, k.r.CaseOps())
+		k.r.Fail("harness-"+strings.SplitN(out, ":", 2)[0], "op "+line+" -> "+out+dump, "an answer", out, k.r.CaseOps())
 		return out
 	}
 	if len(ws) > 0 {
@@ -523,7 +551,9 @@ func genBacklogLive(r *hk.Run, sizes []int, polls int) {
 				}
 			}
 			if variant == 2 {
+				// the new loop's first batch is the whole backlog, and it fails: wait for that
 				k.op("restart")
+				k.op("awaitfail 5")
 			}
 			k.op("recover")
 			k.op("up 3 ok") // wakes the loop
@@ -787,7 +817,7 @@ func genMalformed(r *hk.Run) {
 	k = begin(r, "malformed-live")
 	k.op("live")
 	k.live = true
-	for _, o := range []string{"up 1 qseterr", "copy 1 ok ok", "dump", "live", "drain ok -", "outage corrupt", "outage", "recover now", "drainfirst desterr 3", "outage desterr:eof", "recover", "up 1 ok", "settle"} {
+	for _, o := range []string{"up 1 qseterr", "copy 1 ok ok", "dump", "live", "drain ok -", "outage corrupt", "outage", "recover now", "awaitfail", "awaitfail x", "awaitfail 0", "drainfirst desterr 3", "outage desterr:eof", "recover", "up 1 ok", "settle"} {
 		k.op(o)
 	}
 	k.finish()
